@@ -24,15 +24,41 @@ struct Ctx<'a> {
     executions: u64,
 }
 
+/// Wall-clock watchdog for one run. A run normally takes milliseconds and is bounded by the
+/// step limit; only code that loops WITHOUT ever reaching a scheduling point (or blocks on a
+/// primitive the simulator does not own) can exceed this. The thread cannot be killed: the
+/// caller must end the process after reporting.
+pub fn watchdog() -> Duration {
+    let s = std::env::var("VERIF_WATCHDOG_S").ok().and_then(|s| s.parse().ok()).unwrap_or(30);
+    Duration::from_secs(s)
+}
+
 fn run_isolated(prop: &str, case: &Case, plan: Option<Vec<Option<u16>>>) -> CaseReport {
     let prop = prop.to_string();
-    let case = case.clone();
-    std::thread::Builder::new()
-        .stack_size(64 << 20)
-        .spawn(move || run_case(&prop, &case, plan.as_deref()))
-        .expect("spawn")
-        .join()
-        .unwrap_or_else(|_| CaseReport { harness_error: Some("run thread panicked".into()), ..Default::default() })
+    let case2 = case.clone();
+    let (tx, rx) = std::sync::mpsc::channel();
+    let spawned = std::thread::Builder::new().stack_size(64 << 20).spawn(move || {
+        let r = run_case(&prop, &case2, plan.as_deref());
+        let _ = tx.send(r);
+    });
+    if spawned.is_err() {
+        return CaseReport { harness_error: Some("cannot spawn run thread".into()), ..Default::default() };
+    }
+    match rx.recv_timeout(watchdog()) {
+        Ok(r) => r,
+        Err(std::sync::mpsc::RecvTimeoutError::Timeout) => {
+            let profile = match case {
+                Case::Server { scenario, .. } => scenario.profile.clone(),
+                Case::Graph(_) => "graph".into(),
+                Case::Hist(_) => "hist".into(),
+            };
+            CaseReport { hung: true, outcome_class: "hung".into(), profile, ..Default::default() }
+        }
+        // the run thread died without a report: a panic outside the simulation
+        Err(std::sync::mpsc::RecvTimeoutError::Disconnected) => {
+            CaseReport { harness_error: Some("run thread panicked outside the simulation".into()), ..Default::default() }
+        }
+    }
 }
 
 impl Ctx<'_> {
@@ -47,6 +73,11 @@ impl Ctx<'_> {
         }
         self.executions += 1;
         let r = run_isolated(self.prop, case, plan);
+        if r.hung {
+            // the spinning thread stays behind; stop shrinking
+            self.deadline = Instant::now();
+            return None;
+        }
         if r.violations.iter().any(|v| v.property == self.prop && v.class == self.class) {
             Some(r)
         } else {
